@@ -4,8 +4,10 @@ scratch worktree /tmp/wt_ID to /verif/seeded/ID and write meta.json."""
 import json, os, shutil, sys
 ID, needs, caught = sys.argv[1:4]
 notes = sys.argv[4] if len(sys.argv) > 4 else ""
-wt = f"/tmp/wt_{ID}"
-dst = os.path.join(os.path.dirname(os.path.dirname(os.path.abspath(__file__))), "seeded", ID)
+wt = os.environ.get("WT", f"/tmp/wt_{ID}")
+tag = os.path.basename(wt)
+name = ID + ("b" if tag.startswith("wt2_") else "")
+dst = os.path.join(os.path.dirname(os.path.dirname(os.path.abspath(__file__))), "seeded", name)
 os.makedirs(dst, exist_ok=True)
 shutil.copy(f"{wt}/patch_{ID}.diff", f"{dst}/patch.diff")
 shutil.copy(f"{wt}/demo_{ID}.py", f"{dst}/demo.py")
@@ -14,7 +16,7 @@ for f in ("A", "B", "C", "D", "E", "F"):
     p = f"/tmp/confirm_{f}.log"
     if os.path.exists(p):
         for line in open(p):
-            if line.startswith(ID + " "):
+            if line.startswith(tag + " ") or (tag == "wt_" + ID and line.startswith(ID + " ")):
                 conf = line.strip()
 files = sorted({l.split(" b/")[1].strip() for l in open(f"{dst}/patch.diff") if l.startswith("diff --git")})
 meta = {
